@@ -2,15 +2,24 @@
 
 package reorgdetector
 
-import "sync"
+import (
+	"sort"
 
-// Under the verif tag the lock that serialises the header requests of one reorg check is built on a channel:
-// the check holds it across the RPC call, and a goroutine waiting for a sync.Mutex is not "durably blocked"
-// for testing/synctest, so the simulator could never see the detector quiescent while the RPC is parked and a
-// second subscriber waits for the lock. Same exclusion, same order of acquisition; tag off: a plain sync.Mutex.
-type chanLock chan struct{}
+	"golang.org/x/sync/errgroup"
+)
 
-func (c chanLock) Lock()   { c <- struct{}{} }
-func (c chanLock) Unlock() { <-c }
+// A reorg check handles its subscribers on one goroutine each, in the order a map iteration yields them; the
+// goroutines share a mutex that is held across the header request. Which subscriber asks first is decided by the map
+// and by the Go scheduler, and a goroutine waiting for a sync.Mutex is not a durable block for testing/synctest.
+// Under the verif tag the external simulator (/verif) gets ONE of the legal schedules of that program, always the
+// same: subscribers in the order of their ids, each check running to its end before the next one starts (no check
+// ever waits for another one). Tag off: map order and errgroup goroutines as before.
+func verifSubscriberOrder(ids []string) []string {
+	sort.Strings(ids)
+	return ids
+}
 
-func newHeadersCacheLock() sync.Locker { return make(chanLock, 1) }
+func verifGo(g *errgroup.Group, f func() error) {
+	err := f()
+	g.Go(func() error { return err })
+}
